@@ -235,14 +235,17 @@ SRCTIE = {
     "Grenad.SrcTie.CountWrite": ("SrcCountWrite", ["CountWrite", "CountWrite.new", "CountWrite.count", "CountWrite.write", "CountWrite.flush",
                                                    "CountWrite.into_inner"]),
     "Grenad.SrcTie.WriterBlock": ("SrcWriterBlock", ["BlockBuffer", "compress_and_write_block"]),
+    "Grenad.SrcTie.WriterLemmas": ("SrcWriter", ["DEFAULT_INDEX_KEY_INTERVAL", "BlockWriterBuilder", "BlockWriterBuilder.new",
+                                                 "BlockWriterBuilder.index_key_interval", "BlockWriterBuilder.build", "BlockWriter.builder",
+                                                 "BlockWriter.last_key", "Writer", "WriterBuilder.build", "Writer.insert", "Writer.into_inner"]),
     "Grenad.SrcTie.Sorter": ("SrcSorter", ["EntryBound", "EntryBoundAlignedBuffer", "EntryBoundAlignedBuffer.deref", "Entries", "Entries.clear",
                                            "Entries.remaining", "Entries.entry_size", "Entries.fits", "Entries.memory_usage",
                                            "Entries.estimated_entries_memory_usage", "Sorter", "Sorter.threshold_exceeded"]),
 }
 for _p, _mods in {"C14": ["Varint", "Block", "C14Src"], "C13": ["Meta", "C13Src"], "C10": ["Meta", "C10Src"],
-                  "C09": ["Meta", "BlockWriter", "Varint", "C13Src", "CountWrite", "WriterBlock"], "C04": ["IterRange", "IterNext", "C04C05Src"],
-                  "C05": ["IterPrefix", "C05Src", "IterNext", "C04C05Src"], "C18": ["BlockWriter", "C18Src", "WriterBlock"], "C15": ["BlockWriter", "WriterBuilder"],
-                  "C01": ["BlockWriter", "Varint", "Meta", "Block", "BlockCursor", "TBlockSrc", "BuiltSrc", "NoPanic", "EndToEnd", "BlockLoad", "WriterBlock"],
+                  "C09": ["Meta", "BlockWriter", "Varint", "C13Src", "CountWrite", "WriterBlock", "WriterInsert", "WriterFinish", "WriterRun"], "C04": ["IterRange", "IterNext", "C04C05Src"],
+                  "C05": ["IterPrefix", "C05Src", "IterNext", "C04C05Src"], "C18": ["BlockWriter", "C18Src", "WriterBlock", "WriterInsert", "WriterRun"], "C15": ["BlockWriter", "WriterBuilder", "WriterCut", "WriterInsert", "WriterBuild"],
+                  "C01": ["BlockWriter", "Varint", "Meta", "Block", "BlockCursor", "TBlockSrc", "BuiltSrc", "NoPanic", "EndToEnd", "BlockLoad", "WriterBlock", "WriterLemmas", "WriterCut", "WriterInsert", "WriterFinish", "WriterRun", "WriterBounds", "WriterBuild"],
                   "C02": ["BlockCursor", "Smoke", "TBlockSrc", "NoPanic"], "C06": ["Merger"], "C11": ["CountWrite"], "C08": ["Sorter"], "C07": ["Sorter"]}.items():
     PROPS[_p]["srctie"] = ["Grenad.SrcTie." + m for m in _mods]
 
